@@ -705,7 +705,7 @@ func (tf *transformer) writeSourceFile(basename, obfuscated string, content []by
 	if err := writeFileExclusive(dstPath, content); err != nil {
 		return "", err
 	}
-	verifEvent("write-source", "pkg", tf.curPkg.ImportPath, "file", basename, "path", dstPath)
+	verifEvent("write-source", "pkg", tf.curPkg.ImportPath, "file", basename, "path", dstPath, "content", content)
 	return dstPath, nil
 }
 
